@@ -54,6 +54,7 @@ fn main() {
         #[cfg(feature = "model")]
         "c01" => c01::run(&args),
         "c02" => c02::run(&args),
+        "genembedded" => genembedded(),
         "c04" => c04::run(&args),
         #[cfg(feature = "model")]
         "miriprep" => miriprep(&args),
@@ -91,6 +92,18 @@ fn main() {
         }
     };
     std::process::exit(code);
+}
+
+/// (re)write the two reference-compressed frames embedded in wlcore::hostile (run once; the files are committed)
+fn genembedded() -> i32 {
+    use refz::CP;
+    let dir = concat!(env!("CARGO_MANIFEST_DIR"), "/../wlcore/src/");
+    let g = refz::compress(&wlcore::hostile::good_content(), 3, &[CP::ChecksumFlag(true), CP::WindowLog(12)], None).unwrap();
+    let h = refz::compress(&wlcore::hostile::history_text(), 19, &[CP::ChecksumFlag(true)], None).unwrap();
+    std::fs::write(format!("{dir}good_frame.zst"), &g).unwrap();
+    std::fs::write(format!("{dir}history_frame.zst"), &h).unwrap();
+    println!("good_frame.zst {} bytes, history_frame.zst {} bytes", g.len(), h.len());
+    0
 }
 
 /// write small valid frames (with their content) and hostile plans for the Miri monitor
